@@ -630,6 +630,27 @@ def mutated_fields(stmts: List[ast.stmt], repo: Repo = None) -> Dict[str, set]:
     return out
 
 
+_API = None
+
+
+def api_signature(fi: FunctionInfo):
+    """Documented parameter list of a function of the library (None for functions the table does not know)."""
+    global _API
+    if _API is None:
+        import json
+        import os
+        path = os.path.join(os.path.dirname(os.path.dirname(os.path.abspath(__file__))), "spec", "api_signatures.json")
+        try:
+            with open(path, encoding="utf-8") as fh:
+                _API = json.load(fh)
+        except OSError:
+            _API = {}
+    key = f"{fi.module}:{fi.qual}"
+    if any(d.endswith(".setter") for d in fi.decorators):
+        key += ":setter"
+    return _API.get(key)
+
+
 HEAP_METHODS = {"insert", "remove", "update", "is_empty", "is_full", "go_up", "go_down"}
 
 
@@ -678,6 +699,20 @@ class Walker:
                 env[p] = ("self",)
             else:
                 env[p] = ("param", p)
+        # API extensions: a parameter that the documented signature (spec/api_signatures.json) does not have and that
+        # carries a constant default is read at that default - the properties speak about the documented call patterns;
+        # what a new switch does when it is turned on is new behaviour outside them
+        self.extension_params: Dict[str, Term] = {}
+        known = api_signature(self.entry)
+        if known is not None:
+            a = self.entry.node.args
+            pos = a.posonlyargs + a.args
+            defaults = dict(zip([x.arg for x in reversed(pos)], reversed(a.defaults)))
+            defaults.update({x.arg: d for x, d in zip(a.kwonlyargs, a.kw_defaults) if d is not None})
+            for p in self.entry.params:
+                if p not in known and p in defaults and isinstance(defaults[p], ast.Constant):
+                    env[p] = ("const", defaults[p].value)
+                    self.extension_params[p] = env[p]
         self.fnstack.append(self.entry)
         self.envstack.append(env)
         self.block(self.entry.node.body, env)
@@ -1083,6 +1118,14 @@ class Walker:
         return ("call", ("builtin", "range"), (ps[0][1],), ()), [p[0] for p in ps], zipped
 
     def for_(self, s: ast.For, env: Dict[str, Term]):
+        # `for u in (a, b): body` over a short literal is `u = a; body; u = b; body`
+        if isinstance(s.iter, (ast.Tuple, ast.List)) and 1 <= len(s.iter.elts) <= 4 and isinstance(s.target, ast.Name) \
+                and not s.orelse and not any(isinstance(x, (ast.Break, ast.Continue, ast.Starred)) for x in ast.walk(s)):
+            for elt in s.iter.elts:
+                self.statement(ast.copy_location(ast.Assign(targets=[s.target], value=elt, lineno=s.lineno), s), env)
+                if self.block(s.body, env):
+                    return True
+            return None
         n_ev = len(self.events)
         dom = self.ev(s.iter, env)
         sliced = self._slice_domain(dom)
@@ -1251,6 +1294,9 @@ class Walker:
                 return ("mod", f"{mi.name}.{e.id}")
             if e.id in mi.classes:
                 return ("mod", f"{mi.name}.{e.id}")
+            if isinstance(getattr(mi, "_literals", {}).get(e.id), (ast.Dict, ast.List, ast.Tuple, ast.Set)):
+                # a module-level table that is not a plain literal (e.g. the metric registry): named like an import of it
+                return ("mod", f"{mi.name}.{e.id}")
             if e.id in BUILTINS:
                 return ("builtin", e.id)
             return ("free", e.id)
@@ -1260,6 +1306,8 @@ class Walker:
                 if base[1] == CONST_MOD:
                     return ("K", e.attr)
                 return ("mod", f"{base[1]}.{e.attr}")
+            if base[0] == "call" and base[1] == ("mod", "struct.Struct") and len(base[2]) == 1 and e.attr == "size":
+                return ("call", ("mod", "struct.calcsize"), base[2], ())  # struct.Struct(fmt).size
             t = ("attr", base, e.attr)
             return self.subst.get(t, t)
         if isinstance(e, ast.Subscript):
@@ -1426,6 +1474,12 @@ class Walker:
                 args.append(v)
         args = tuple(args)
         kwargs = tuple((k.arg or "**", self.ev(k.value, env)) for k in e.keywords)
+        # struct.Struct(fmt).unpack(buf) / .pack(...) / .unpack_from(...) are the module functions applied to fmt
+        if fn[0] == "attr" and fn[1][0] == "call" and fn[1][1] == ("mod", "struct.Struct") and len(fn[1][2]) == 1 \
+                and fn[2] in ("unpack", "pack", "unpack_from", "iter_unpack", "pack_into"):
+            fmt = fn[1][2][0]
+            fn = ("mod", "struct." + fn[2])
+            args = (fmt,) + tuple(args)
         # D.get(k[, default]) on a dispatch table with a constant key
         if fn[0] == "attr" and fn[2] == "get" and fn[1][0] == "dict" and 1 <= len(args) <= 2 and not kwargs \
                 and args[0][0] == "const":
@@ -1641,6 +1695,15 @@ class Walker:
 
 def walk_function(repo: Repo, fi: FunctionInfo, self_class: str = None, inline=None) -> Walker:
     return Walker(repo, fi, self_class=self_class, inline=inline)
+
+
+def is_log_call(ev) -> bool:
+    """A call of a method of the module's `logger` (its arguments are formatted into a message, nothing else)."""
+    if ev.kind != "call" or ev.target is None or ev.target[0] != "attr":
+        return False
+    r = ev.target[1]
+    return ev.target[2] in ("debug", "info", "warning", "error", "exception", "critical", "log") and (
+        r == ("free", "logger") or (r[0] == "mod" and r[1].endswith(("logger", "logging"))))
 
 
 def is_neg_float_max(t: Term) -> bool:
